@@ -1,5 +1,6 @@
 SPECIFICATION Spec
 CONSTANT Lits <- BatchLits
+CONSTANT Fixed <- BatchFixed
 INVARIANT Judge
 POSTCONDITION Post
 CHECK_DEADLOCK FALSE
